@@ -162,6 +162,11 @@ def shapes(tier, seed):
          ["or", ["cmp", "eq", ["a", "w", "a"], ["a", "x", "a"]], ["cmp", "gt", ["a", "w", "b"], ["a", "y", "b"]]]],
         ["cmp", "eq", ["ra", "x"], ["v", "y"]],
     ]
+    eq3 = lambda a, b, f="a": ["cmp", "eq", ["a", a, f], ["a", b, f]]
+    c3 += [["and", ["or", eq3("x", "y"), eq3("x", "w", "b")], ["cmp", "le", ["a", "y", "b"], ["a", "w", "b"]]],
+           ["and", ["or", eq3("x", "w"), eq3("x", "y", "b")], ["cmp", "le", ["a", "w", "c"], ["a", "y", "c"]]],
+           ["and", eq3("x", "y"), eq3("y", "w", "b")],
+           ["or", ["and", eq3("x", "y"), eq3("x", "w")], ["cmp", "gt", ["a", "y", "b"], ["a", "w", "b"]]]]
     s3 = [[["v", "x"], ["v", "y"], ["v", "w"]], [["v", "w"], ["v", "x"]], [["v", "y"]], [["v", "w"], ["v", "y"], ["v", "x"]]]
     for c in c3:
         for s in (s3 if tier == "thorough" else s3[:2]):
